@@ -17,7 +17,9 @@ RULE = (
     "of each class 3 mod 4 / 5 mod 8 / 1 mod 8 with a = b^2 (residue by construction) and Euler "
     "non-residues; oracle r*r = a, 0 <= r < p, SquareRootError iff non-residue. jacobi: every odd "
     "n in a range with every a in [0,n) and out-of-range a, and n built from generated primes so "
-    "the factorisation is known; oracle product of Legendre symbols. Non-trivial = everything "
+    "the factorisation is known; oracle product of Legendre symbols. For p = 1 mod 8 additionally the residues "
+    "with the deepest parameter search (b = 2, 3, ... until b^2-4a is a non-residue), found by scanning 2^18..2^22 "
+    "squares per prime with the reference Legendre symbol. Non-trivial = everything "
     "except a in {0,1}; distinct by (function, modulus, a) - enumerations do not repeat."
 )
 ASSUMPTIONS = [
@@ -143,9 +145,39 @@ def big_primes():
     return sorted(ps)
 
 
+def deep_cipolla_residues(p, count, keep, start=2):
+    """residues a = t^2 mod p (p = 1 mod 8) ranked by how many consecutive b = 2, 3, ... make
+    b^2 - 4a a square: exactly the inputs for which the polynomial-arithmetic branch has to search
+    longest for its parameter.  A residue of depth k occurs with probability 2^-k, so it is found by
+    scanning with the reference Legendre symbol, not by waiting for a random test to hit it."""
+    h = (p - 1) // 2
+    best = []
+    for t in range(start, start + count):
+        a = t * t % p
+        if a == 0:
+            continue
+        b = 2
+        while pow(b * b - 4 * a, h, p) != p - 1:
+            b += 1
+            if b > 200:
+                break
+        depth = b - 2
+        if len(best) < keep or depth > best[0][0]:
+            best.append((depth, a))
+            best.sort()
+            if len(best) > keep:
+                best.pop(0)
+    return best
+
+
 def units(tier, seed):
     q = tier == "quick"
     out = []
+    deep_primes = [prime_in_class(1 << 20, 1, 8), prime_in_class(1 << 24, 1, 8), prime_in_class(1 << 27, 1, 16),
+                   prime_in_class(1 << 30, 1, 8), prime_in_class(3 << 29, 1, 32), prime_in_class(1 << 31, 1, 8),
+                   prime_in_class(5 << 28, 1, 8), prime_in_class(7 << 27, 1, 64)]
+    for i, dp in enumerate(deep_primes if not q else deep_primes[:6]):
+        out.append(("sqrt-deep", {"p": dp, "count": (1 << 20) if q else (1 << 23), "start": 2 + 7919 * seed}))
     for i in range(4):
         out.append(("inverse-small", {"hi": 150 if q else 400, "shard": i, "nshards": 4}))
     for i in range(8):
@@ -189,6 +221,14 @@ def run_unit(ctx, name, **kw):
                 check_jacobi(ctx, a, n, f)
         ctx.exhausted("jacobi: all odd n in [3,%d) x all a in [0,n)" % kw["hi"])
         ctx.sample({"fn": "jacobi", "n": kw["hi"] - 1 | 1, "a": "all"})
+    elif name == "sqrt-deep":
+        p = kw["p"]
+        best = deep_cipolla_residues(p, kw["count"], 40, kw["start"])
+        for depth, a in best:
+            check_sqrt(ctx, a, p)
+            ctx.event("sqrt-deep:depth>=%d" % (depth // 4 * 4))
+        ctx.sample({"fn": "sqrt", "p": p, "a": best[-1][1], "cipolla_search_depth": best[-1][0],
+                    "scanned": kw["count"]})
     elif name == "sqrt-curve-primes":
         import hashlib
         for p in big_primes():
